@@ -19,8 +19,10 @@ impl Function {
 
     /// Add a constant and return its index
     pub fn add_constant(&mut self, value: Value) -> u16 {
+        // same bit pattern only: `==` on values is the language's equality, under which
+        // 0.0 == -0.0 and 1 == 1.0, and the pool must keep such constants apart
         for (i, existing) in self.constants.iter().enumerate() {
-            if *existing == value {
+            if existing.raw_bits() == value.raw_bits() {
                 return i as u16;
             }
         }
